@@ -183,7 +183,7 @@ def _always_runs(fn, chain, i):
     if k in ("both", "pair"):
         return True
     if k == "cb":
-        return i > 0 and (_swallows(fn, chain[i - 1]) or chain[i - 1].kind == "both" and False)
+        return i > 0 and _swallows(fn, chain[i - 1])
     return False
 
 
@@ -200,6 +200,26 @@ def _deferred_var(fn, producer_tail):
     if len(out) != 1:
         raise AnchorVanished("Deferred of %s(..) not found in %s" % (producer_tail, short(fn)))
     return out.pop()
+
+
+def _dominators(cfg):
+    """node id -> set of ids of its dominators (reachable part of the CFG, normal and exceptional edges)."""
+    reach = cfg.reachable_nodes()
+    dom = {i: set(reach) for i in reach}
+    dom[cfg.entry.id] = {cfg.entry.id}
+    changed = True
+    while changed:
+        changed = False
+        for i in sorted(reach):
+            if i == cfg.entry.id:
+                continue
+            ps = [p for (p, _l) in cfg.pred[i] if p in reach]
+            new = set.intersection(*[dom[p] for p in ps]) if ps else set()
+            new = new | {i}
+            if new != dom[i]:
+                dom[i] = new
+                changed = True
+    return dom
 
 
 def _state_names(idx):
@@ -222,7 +242,7 @@ def run(ctx: Context):
 
     # -- 1. wake-up discipline ----------------------------------------------
     with ctx.rule("C03.1", "R2", "every state-changing handler of fetcher / finder / node / share passes the event on "
-                  "or schedules its loop on every normal path", expected=20) as r:
+                  "or schedules its loop on every normal path", expected=18) as r:
         self_loop = _schedules(lambda p: p == "self.loop")
 
         def handler(qual, required, what, excuse=None, note=""):
@@ -301,14 +321,11 @@ def run(ctx: Context):
         lp = idx.func(SHARE + ".loop")
         r.site(lp, None, "re-arms schedule_loop")
         rearm = _stores_const("self._loop_scheduled", False)
-        ws, k, _v, _p = _unexcused(lp, rearm, ends=("exit", "raise"))
-        r.count(k)
-        for w in ws:
-            r.violation(lp, lp.loc(), "Share.loop can finish with _loop_scheduled still set: schedule_loop() then never "
-                        "schedules the loop again (path: %s)" % w.brief(), w)
+        if not lp.cfg().find(_calls(lp, "self._do_loop")):
+            raise AnchorVanished("Share.loop no longer calls _do_loop")
         for (n, w) in find_path_avoiding(lp.cfg(), _calls(lp, "self._do_loop"), gate_node=rearm):
-            r.violation(lp, lp.loc(n.ast), "Share._do_loop runs before _loop_scheduled is cleared: a wake-up arriving "
-                        "during the pass is lost", w)
+            r.violation(lp, lp.loc(n.ast), "Share._do_loop can run with _loop_scheduled still set: schedule_loop() then "
+                        "never schedules the loop again and every later wake-up of this share is lost (path: %s)" % w.brief(), w)
         sq = idx.func(SHARE + "._send_requests")
         chain = [x for x in registrations(sq) if x.recv == _deferred_var(sq, "_send_request")]
         r.site(sq, None, "chain " + " ".join(map(repr, chain)))
@@ -423,7 +440,7 @@ def run(ctx: Context):
 
     # -- 3. abandonment -----------------------------------------------------
     with ctx.rule("C03.3", "R1", "Share._fail clears _alive and notifies DEAD to every observer of every requested block; "
-                  "Share.loop's handlers and _got_error call _fail; CORRUPT / BADSEGNUM reach every observer", expected=6) as r:
+                  "Share.loop's handlers and _got_error call _fail; CORRUPT / BADSEGNUM reach every observer", expected=5) as r:
         fl = idx.func(SHARE + "._fail")
         r.site(fl, None, "DEAD to all observers")
         _must_pass(r, fl, _stores_const("self._alive", False), "clearing _alive")
@@ -596,11 +613,21 @@ def run(ctx: Context):
         for (n, w) in find_path_avoiding(cfg, ann, gate_edge=idle):
             r.violation(fl, fl.loc(n.ast), "no_more_shares is announced while DYHB requests may still be in flight (a late "
                         "server's shares are given up) (path: %s)" % w.brief(), w)
-        no_server = lambda n, lab: fx2.edge_fact(n, lab) == ("false", "self._servers", None)
-        stop_iter = lambda n: n.kind == "except" and "StopIteration" in ast.unparse(n.ast.type or ast.Name(id=""))
-        for (n, w) in find_path_avoiding(cfg, ann, gate_edge=no_server, gate_node=stop_iter):
-            r.violation(fl, fl.loc(n.ast), "no_more_shares is announced although the server iterator was not exhausted "
+        sends = [c for n in cfg.find(_calls(fl, "self.send_request")) for c in node_calls(n) if call_tail(c) == "send_request"]
+        if not sends or not sends[0].args or attr_path(sends[0].args[0]) is None:
+            raise AnchorVanished("ShareFinder.loop no longer calls send_request(<server>)")
+        srv = attr_path(sends[0].args[0])
+        no_server = lambda n, lab: fx2.edge_fact(n, lab) in (("false", srv, None), ("is", "None", srv), ("is", srv, "None"))
+        for (n, w) in find_path_avoiding(cfg, ann, gate_edge=no_server, kill=stores(srv)):
+            r.violation(fl, fl.loc(n.ast), "no_more_shares is announced on a pass that obtained a server to query "
                         "(path: %s)" % w.brief(), w)
+        # the server variable is falsy only when the iterator is exhausted: its only definitions are None and next(..)
+        for n in cfg.find(stores(srv)):
+            v = assign_value(n, srv)
+            ok = (isinstance(v, ast.Constant) and v.value is None) or (isinstance(v, ast.Call) and call_tail(v) == "next"
+                                                                        and v.args and attr_path(v.args[0]) == "self._servers")
+            r.require(ok, fl, fl.loc(n.ast), "`%s` is bound to %s: a pass that did not take the next server can look like an "
+                      "exhausted server list" % (srv, src(fl, v)))
 
     # -- 5. diversity escalation --------------------------------------------
     with ctx.rule("C03.5", "R1", "_do_loop: want_more_diversity raises _max_shares_per_server and retries; "
@@ -608,7 +635,6 @@ def run(ctx: Context):
         dl = idx.func(FETCH + "._do_loop")
         cfg = dl.cfg()
         fx = _fnorm(dl)
-        finder_call = _calls(dl, "self._find_and_use_share")
         tests = [n for n in cfg.nodes if n.kind == "test" and any(
             (fx.edge_fact(n, l) or ("",))[0] == "truth" and re.search(r"_find_and_use_share\(\)\[1\]$", fx.edge_fact(n, l)[1] or "")
             for (_d, l) in cfg.succ[n.id] if isinstance(l, tuple) and l[0] == "T")]
@@ -623,37 +649,38 @@ def run(ctx: Context):
                 return isinstance(a.op, ast.Add) and isinstance(a.value, ast.Constant) and isinstance(a.value.value, int) and a.value.value > 0
             v = assign_value(n, "self._max_shares_per_server")
             return v is not None and re.match(r"^\(?[1-9]\d* \+ self\._max_shares_per_server\)?$", fx.norm(n, v) or "") is not None
+        dom = _dominators(cfg)
         for t in tests:
             r.site(dl, t.ast, "escalation")
             for (d, l) in cfg.succ[t.id]:
                 if not (isinstance(l, tuple) and l[0] == "T"):
                     continue
 
-                def transfer(n, lab, nxt, st):
-                    if lab == "exc":
+                def transfer(n, lab, nxt, st, _t=t):
+                    if lab == "exc" or st in ("R0", "R1"):
                         return None
                     if st == 0 and raises_limit(n):
                         st = 1
-                    if finder_call(n):
-                        return None
+                    if nxt.id in dom.get(n.id, ()) and nxt.id in dom.get(_t.id, ()):
+                        return "R%d" % st          # back edge of the loop around the test: a retry
                     return st
                 visited, parent = explore(cfg, 0, transfer, start=cfg.nodes[d])
                 r.count(len(visited))
-                for (nid, st) in sorted(visited):
-                    n = cfg.nodes[nid]
-                    if n.kind == "exit":
+                for (nid, st) in sorted(visited, key=repr):
+                    if cfg.nodes[nid].kind == "exit":
                         w = witness(cfg, parent, (nid, st))
                         r.violation(dl, dl.loc(t.ast), "with every usable share behind the per-server limit _do_loop returns "
                                     "instead of retrying with a higher limit: k shares on one server are never all "
                                     "fetched (path: %s)" % w.brief(), w)
                         break
-                for (nid, st) in sorted(visited):
-                    n = cfg.nodes[nid]
-                    if st == 0 and n.kind != "exit" and finder_call(n):
+                for (nid, st) in sorted(visited, key=repr):
+                    if st == "R0":
                         w = witness(cfg, parent, (nid, st))
                         r.violation(dl, dl.loc(t.ast), "_do_loop retries without raising _max_shares_per_server: the same "
                                     "shares are skipped again, for ever (path: %s)" % w.brief(), w)
                         break
+                if not any(st == "R1" for (_n, st) in visited):
+                    r.violation(dl, dl.loc(t.ast), "the want_more_diversity branch never loops back to try again")
 
         fu = idx.func(FETCH + "._find_and_use_share")
         cfg = fu.cfg()
